@@ -221,6 +221,29 @@ func bindBehaviour(u *Universe, beh []map[string]any, rnd *rand.Rand) []op {
 	}
 	sort.Strings(absKeys)
 	perm := rnd.Perm(len(u.Keys))
+	// VERIF_BIND=groups: the abstract keys are bound, in order, to one group of related catalogue keys (object,
+	// activity key, ...) and the other local endpoints are mostly absent, so that the behaviour's deliveries toggle
+	// the object's activity; otherwise to random keys
+	grouped := os.Getenv("VERIF_BIND") == "groups" && len(u.Groups) > 0
+	if grouped {
+		g := u.Groups[rnd.Intn(len(u.Groups))]
+		first := []int{}
+		used := map[int]bool{}
+		for _, kid := range g {
+			for i := range u.Keys {
+				if u.Keys[i].ID == kid {
+					first = append(first, i)
+					used[i] = true
+				}
+			}
+		}
+		for _, i := range perm {
+			if !used[i] {
+				first = append(first, i)
+			}
+		}
+		perm = first
+	}
 	bind := map[string]*Key{}
 	vmap := map[string][]string{}
 	bound := map[string]bool{}
@@ -236,7 +259,7 @@ func bindBehaviour(u *Universe, beh []map[string]any, rnd *rand.Rand) []op {
 	// background: the other keys of the universe get a value (or stay absent) before the behaviour starts
 	for _, i := range rnd.Perm(len(u.Keys)) {
 		k := &u.Keys[i]
-		if bound[k.ID] || rnd.Intn(5) == 0 {
+		if bound[k.ID] || rnd.Intn(5) == 0 || (grouped && isLocalEndpoint(k) && rnd.Intn(10) < 5) {
 			continue
 		}
 		v := k.Variants[rnd.Intn(len(k.Variants))]
@@ -416,9 +439,15 @@ func windowHistory(u *Universe, rnd *rand.Rand) []op {
 		return op{Op: "deliver", K: k.ID, V: v}
 	}
 	// by convention a group lists the object first and a key deciding its activity second
-	val := func(kid string) op {
+	cur := map[string]string{}
+	val := func(kid string) op { // a variant different from the one this generator delivered last
 		k := u.key(kid)
-		return op{Op: "deliver", K: kid, V: k.Variants[rnd.Intn(len(k.Variants))].Name}
+		v := k.Variants[rnd.Intn(len(k.Variants))].Name
+		if v == cur[kid] {
+			v = k.Variants[rnd.Intn(len(k.Variants))].Name
+		}
+		cur[kid] = v
+		return op{Op: "deliver", K: kid, V: v}
 	}
 	gone := func(kid string) op { return op{Op: "deliver", K: kid, V: "nil"} }
 	flush := func() {
@@ -442,7 +471,7 @@ func windowHistory(u *Universe, rnd *rand.Rand) []op {
 		flush()
 		// (B) a multi-update window
 		switch rnd.Intn(10) {
-		case 0, 1, 2: // edited, then deactivated, in one window
+		case 0, 1, 2, 7: // edited, then deactivated, in one window
 			ops = append(ops, val(obj), gone(act))
 		case 3, 4: // removal flushed; later activated and deactivated again inside one window
 			ops = append(ops, gone(act))
@@ -632,7 +661,8 @@ func main() {
 			n = 15 + rnd.Intn(45)
 		}
 		ops := randomHistory(u, rnd, n)
-		if i%2 == 1 && !async && os.Getenv("VERIF_WINDOWS") != "off" {
+		wm := os.Getenv("VERIF_WINDOWS") // "": every other random history is window-mode; "most": three of four; "off"
+		if !async && wm != "off" && ((wm == "most" && i%4 != 0) || (wm != "most" && i%2 == 1)) {
 			ops = windowHistory(u, rnd)
 		}
 		if async {
